@@ -146,6 +146,12 @@ func (g *gen) plainTokens(n int) []*inl {
 		if pick == 12 && g.no("inline:escape-alone") {
 			pick = 0
 		}
+		if pick == 5 && g.r.Intn(8) == 0 && !g.no("inline:escape") {
+			// digits followed by an escaped "." or ")": a list marker if the escape is lost
+			out = append(out, &inl{k: iWord, s: []string{"1", "7", "42", "123456789"}[g.r.Intn(4)]}, &inl{k: iEsc, s: string(".)"[g.r.Intn(2)])})
+			g.f("inline:escaped-list-marker")
+			continue
+		}
 		switch pick {
 		case 12:
 			// an escaped character standing alone (at the start of a line it keeps a block rule from applying)
@@ -220,6 +226,10 @@ func (g *gen) inlineSeq(n int, depth int, inLink bool, lineBreaks bool) []*inl {
 			if inLink {
 				out = append(out, g.word())
 				break
+			}
+			if g.r.Intn(6) == 0 && !g.no("inline:escape") {
+				out = append(out, &inl{k: iEsc, s: "!"}) // "\\![" must not become an image
+				g.f("inline:escaped-bang-before-link")
 			}
 			out = append(out, g.link(depth-1))
 		case 10:
@@ -308,7 +318,7 @@ func (g *gen) codeSpan() *inl {
 	return &inl{k: iCode, s: c}
 }
 
-var destChars = []string{"/url", "/a/b.c", "http://x.y/z?q=1#f", "rel", "/p(a)", "#frag", "/%20x", "/é"}
+var destChars = []string{"/url", "/a/b.c", "http://x.y/z?q=1#f", "rel", "/p(a)", "#frag", "/%20x", "/a\\(b", "/c\\)d", "/é"}
 
 func (g *gen) destTitle(in *inl) {
 	in.dest = destChars[g.r.Intn(len(destChars))]
@@ -415,7 +425,33 @@ func (g *gen) paragraph(lines bool) *blk {
 	return b
 }
 
-func (g *gen) codeLines(allowBlank bool) []string {
+func (g *gen) codeLines(allowBlank bool) []string { return g.codeLines0(allowBlank) }
+
+// codeLinesFor: fenceCh/fenceN describe the fence the lines will sit in (0: an
+// indented block, where any line is allowed); runs of the fence character
+// shorter than the fence are content.
+func (g *gen) codeLinesFor(allowBlank bool, fenceCh byte, fenceN int) []string {
+	lines := g.codeLines0(allowBlank)
+	if g.no("code:fence-like-lines") {
+		return lines
+	}
+	for i := range lines {
+		if lines[i] == "" || g.r.Intn(4) != 0 {
+			continue
+		}
+		switch {
+		case fenceN == 0:
+			lines[i] = []string{"```", "````", "~~~", "  ```", "  two", "   three", "``` x", "~~~~~"}[g.r.Intn(8)]
+			g.f("code:fence-like-lines")
+		case fenceN >= 4:
+			lines[i] = strings.Repeat(string(fenceCh), fenceN-1)
+			g.f("code:fence-like-lines")
+		}
+	}
+	return lines
+}
+
+func (g *gen) codeLines0(allowBlank bool) []string {
 	pool := []string{"code", "x := 1", "  indented", "<b>&amp;", "* not a list", "# not a heading", "> q", "a\\*b", "\tTab", "trés", "[l](u)", "    deep"}
 	n := g.r.Range(1, 4)
 	var out []string
@@ -474,7 +510,8 @@ func (g *gen) block1(depth int, inListItemFirst bool, afterPara bool) *blk {
 		return &blk{k: kBreak, brk: []string{"***", "___", "* * *", "_  _  _", "*****", "---", "- - -"}[g.r.Intn(7)]}
 	case 9, 10:
 		g.f("block:fenced")
-		b := &blk{k: kFenced, fenceCh: "`~"[g.r.Intn(2)], fenceN: g.r.Range(3, 5), lines: g.codeLines(true)}
+		b := &blk{k: kFenced, fenceCh: "`~"[g.r.Intn(2)], fenceN: g.r.Range(3, 5)}
+		b.lines = g.codeLinesFor(true, b.fenceCh, b.fenceN)
 		if g.r.Bool() {
 			b.info = []string{"go", "python", "c++", "a&amp;b", "x\\*y"}[g.r.Intn(5)]
 		}
@@ -484,7 +521,7 @@ func (g *gen) block1(depth int, inListItemFirst bool, afterPara bool) *blk {
 		return b
 	case 11:
 		g.f("block:indented")
-		return &blk{k: kIndented, lines: g.codeLines(true)}
+		return &blk{k: kIndented, lines: g.codeLinesFor(true, 0, 0)}
 	case 12:
 		g.f("block:html")
 		return g.htmlBlock()
@@ -522,8 +559,15 @@ func (g *gen) htmlBlock() *blk {
 func (g *gen) refDef() *blk {
 	g.f("block:refdef")
 	b := &blk{k: kRefDef, label: "ref" + strconv.Itoa(len(g.defs)+1)}
-	if g.r.Intn(3) == 0 {
+	switch g.r.Intn(6) {
+	case 0, 1:
 		b.label = "Ref " + []string{"one", "two", "Three"}[g.r.Intn(3)] + " " + strconv.Itoa(len(g.defs)+1)
+	case 2:
+		if !g.no("label:punctuation") {
+			// punctuation that has no inline meaning of its own inside brackets
+			b.label = []string{"a=b", "v1.0", "c#", "a+b", "x-y", "q&a", "50%", "it's"}[g.r.Intn(8)] + " " + strconv.Itoa(len(g.defs)+1)
+			g.f("label:punctuation")
+		}
 	}
 	b.dest = destChars[g.r.Intn(len(destChars)-1)]
 	if g.r.Bool() {
